@@ -861,9 +861,12 @@ func recordQualifiedReferences(node *lisp.LVal, refs map[string]bool) {
 			refs[pkg+"/"+name] = true
 		}
 	case lisp.LSExpr:
-		if node.IsQuoted() {
-			return
-		}
+		// Quoted lists are walked too.  A binding list written with brackets --
+		// (let ([v (pkg:helper x)]) ...) -- reaches us as a quoted list, so
+		// skipping quoted lists skipped real references: pkg's private helper
+		// was renamed while pkg:helper kept its spelling, and the minified
+		// program failed with an unbound symbol.  Recording a qualified name
+		// that only occurs in quoted data merely preserves one more name.
 		for _, child := range node.Cells {
 			recordQualifiedReferences(child, refs)
 		}
@@ -871,10 +874,9 @@ func recordQualifiedReferences(node *lisp.LVal, refs map[string]bool) {
 		lisp.LFun, lisp.LQuote, lisp.LString, lisp.LBytes, lisp.LSortMap,
 		lisp.LArray, lisp.LNative, lisp.LTaggedVal, lisp.LMarkTerminal,
 		lisp.LMarkTailRec, lisp.LMarkMacExpand, lisp.LTypeMax:
-		// Nothing to record.  Literals carry no package qualification, and
-		// LQuote is skipped for the same reason the quoted-LSExpr branch
-		// above bails out: a quoted form is data, not a reference.  The rest
-		// are runtime-only values that never appear in a parsed file.
+		// Nothing to record.  Literals carry no package qualification, a
+		// multiply quoted form (LQuote) is data, not a reference, and the
+		// rest are runtime-only values that never appear in a parsed file.
 	}
 }
 
